@@ -22,6 +22,8 @@ RULE = (
     "=> 'No alignments found'; a call exceeding 1000*(index keys+10) line events inside view.py counts as non-termination. "
     "Non-trivial = a region spanning >=2 nodes, or with a boundary on a node boundary, or covering an unaligned node, or "
     ">=2 regions. Distinct by SHA-1 of the case."
+    " Later additions: the same interval text on two contigs, a region given twice, contig names with commas, "
+    "an index path that held another index."
 )
 ASSUMPTIONS = ["regions are closed intervals [a,b]; a=b is one base"]
 
